@@ -53,7 +53,10 @@ def gen(rng):
     return {"base": rng.choice(["sync", "pool", "pool"]), "layers": layers, "subs": subs, "timeout": rng.choice([10 ** 6, 3]),
             "poll_faults": rng.random() < 0.2, "name": rng.choice(["default", "mx"]), "shutdown_early": rng.random() < 0.25,
             # the user shuts down the innermost (base) executor directly: later hand-overs to it are refused
-            "base_shutdown_at": rng.choice([None, None, None, None, 0, 1])}
+            "base_shutdown_at": rng.choice([None, None, None, None, 0, 1]),
+            # the first future's done-callback shuts the whole stack down with wait=True - from whatever thread completes it; on a
+            # layer's own worker thread the join raises (cannot join current thread): the gauges must come out right all the same
+            "cb_shutdown": rng.random() < 0.2}
 
 
 def execute(p, chooser):
@@ -142,6 +145,8 @@ def execute(p, chooser):
                 obs["accepted"] += 1
             except RuntimeError:
                 pass
+            if s == 0 and p.get("cb_shutdown") and s in futs:
+                futs[s].add_done_callback(lambda f: top.shutdown(True))
 
         def canceller():
             t = 0
